@@ -193,7 +193,13 @@ class PathWorld:
                     blk = blocks.make_block(16, 1 + self.counter % 3, 1000 + self.counter, 1500000000, 1500000100)
                     with Tdf(p).allow_write() as f:
                         f.events = blk
-                        f.copy(self.target(c["q"]))
+                        cp = f.copy(self.target(c["q"]))
+                        # the copy is an object of its own: a mutation through it while the source is still
+                        # inside its write context must be refused (and must not land in the source)
+                        try:
+                            cp.add_block(blocks.make_block(6, 1, 777))
+                        except Exception:  # noqa: BLE001
+                            pass
                 elif op == "mutate":
                     self.counter += 1
                     blk = blocks.make_block(16, 1 + self.counter % 3, 1000 + self.counter, 1500000000, 1500000100)
